@@ -160,6 +160,7 @@ def run(R):
                       "substitutes a default number for a value that does not parse")
     r12(R)
     r13(R)
+    r14(R)
     R.rule("C05-R7", "match-or-bind is the last word on a binding row: after a premise position was matched against (or bound in) a row by "
                      "a match-or-bind helper, nothing overwrites entries of that row before it is emitted - a plain insert after the "
                      "test can replace the very value the test just accepted (repeated variable across positions)")
@@ -740,3 +741,69 @@ def r13(R):
                      detail=None if not late else "`ok(X) :- reading(X, A), limit(X, B), A < B`: when reading is joined first, `A < B` is evaluated with B unbound, "
                      "compares A with the text `B`, fails, and the binding is gone before limit could bind B")
     R.floor("C05-R13", "filter evaluation sites", n, 4)
+
+
+def r14(R):
+    """the snapshot a parallel round joins against is taken after the previous round's facts went in"""
+    prog = R.prog
+    R.rule("C05-R14", "a round sees the facts of all earlier rounds: where a strategy joins the delta against a *snapshot* of the fact set (a copy "
+                      "shared with parallel workers), no insertion into the fact set lies on a path from the taking of that snapshot to its use in the "
+                      "join - the snapshot is taken after the previous round's new facts were inserted. A snapshot taken before them makes each round "
+                      "join its delta against the facts *without* that delta: a rule whose two premises are both satisfied by facts first derived in "
+                      "the same round never fires, and the strategy ends below the least model")
+    n = 0
+    for b in sorted(prog.bodies.values(), key=lambda x: x.key):
+        if b.crate != "datalog" or b.is_closure or "::tests::" in b.key or "materialisation" not in b.file:
+            continue
+        # snapshots: Arc::new(<fact set>.clone()) / a clone of a fact set stored in a local that closures capture
+        snaps, news = {}, {}
+        for c in b.calls():
+            if c.name() == "new" and "Arc" in (c.pretty or "") and c.args and not c.dest["p"] and "HashSet<shared::triple::Triple" in b.local_ty(c.dest["l"]):
+                tgt, at = c.dest["l"], c.bb
+                # `snapshot = Arc::new(..)` on an existing variable goes through a temporary that is then moved into it
+                for bb, i, pl, rv, st in b.assigns():
+                    if rv["rv"] == "use" and not pl["p"] and F.op_local(rv["op"]) == c.dest["l"] and b.local_name(pl["l"]):
+                        tgt, at = pl["l"], bb
+                snaps.setdefault(tgt, []).append(at)
+                news.setdefault(tgt, []).append(c)
+        if not snaps:
+            continue
+        # the fact set a snapshot copies, and the insertions into it
+        for sl, defs in sorted(snaps.items()):
+            src = None
+            for c in news.get(sl, []):
+                if F.op_place(c.args[0]):
+                    o = b.origin(c.args[0], stop_named=False)
+                    if o[0] == "call" and o[1].name() == "clone" and o[1].args:
+                        src = b.alias_root(o[1].args[0])
+            if src is None:
+                continue
+            inserts = [c for c in b.calls() if c.name() in ("insert", "extend", "push") and c.args and b.alias_root(c.args[0]) == src]
+            uses = set()
+            for bb, i, pl, rv, st in b.assigns():
+                if rv["rv"] == "aggregate" and rv.get("ak") == "closure" and any(F.op_place(o) and b.alias_root(o) == sl for o in rv["ops"]):
+                    uses.add(bb)
+                if rv["rv"] in ("ref", "use") and bb not in defs:
+                    for pp, k in F.rv_places(rv):
+                        if pp["l"] == sl:
+                            uses.add(bb)
+            for c in b.calls():
+                if c.bb not in defs and any(F.op_place(a) and F.op_place(a)["l"] == sl for a in c.args) and c.name() not in ("drop",):
+                    uses.add(c.bb)
+            if not uses or not inserts:
+                continue
+            n += 1
+            R.saw(b)
+            stale = []
+            for d in defs:
+                after = b.reach_from(b.succ(d), avoid=set(defs))
+                for ins in inserts:
+                    if ins.bb in after:
+                        later = b.reach_from(b.succ(ins.bb), avoid=set(defs))
+                        hit = sorted(u for u in uses if u in later)
+                        if hit:
+                            stale.append((d, ins.bb, hit[0]))
+            R.ob("C05-R14", "current:%s:%s" % (b.name, b.local_name(sl) or sl), "in %s the snapshot `%s` of `%s` is used only before anything is inserted after it was taken "
+                 "(snapshot -> insert -> use paths: %s)" % (b.name, b.local_name(sl) or sl, b.local_name(src) or src, stale[:2]), not stale,
+                 where=b.where(), detail=None if not stale else "`r :- edge. s :- edge. t :- r, s.`: r and s appear in round 1; round 2 joins them against a snapshot that holds neither")
+    R.floor("C05-R14", "strategies that join against a snapshot of the fact set", n, 1)
